@@ -126,6 +126,17 @@ def encryptor_reuse(res, prop: str):
         for k, party in enumerate(["vendor_a", "vendor_b", "vendor_b", "vendor_a"]):
             res.case(["encryptor-reuse", prop, k], nontrivial=True)
             res.count("reuse:encryptor")
+            if k == 1:
+                # in between, the same object converts a blob whose key was wrapped with AES-KW (another key-wrap algorithm than the calls around it):
+                # each call's info names the algorithm of *that* call (C06-s)
+                try:
+                    _c, _t, kwinfo = shared.generate(bytes(12) + bytes(16) + b"blob", bytes(range(40)), 7, SuitKWAlgorithms("aes-kw-256"))[:3]
+                    kit = ct.decode(kwinfo)
+                    kenc = (kit.nested if kit.nested is not None else ct.decode(kit.data)).children[0].children
+                    kalg = dict((kk.arg, vv) for kk, vv in ct.decode(kenc[3].children[0].children[0].data).children)
+                    res.count("reuse:encryptor:aes-kw-in-between")
+                except BaseException as e:  # noqa
+                    res.count("reuse:encryptor:aes-kw-in-between:" + type(e).__name__)
             try:
                 content, tag, info, digest, ln = shared.encrypt_and_generate(fw, "fw_key", 7, parties[party]["dir"], SuitDigestAlgorithms("sha-256"),
                                                                              SuitKWAlgorithms("direct"), kms)
@@ -141,6 +152,15 @@ def encryptor_reuse(res, prop: str):
                 kids = [ct.decode(dict((kk.arg, vv) for kk, vv in r.children[1].children)[4].data).arg for r in recips]
             except Exception:  # noqa
                 recips, kids = None, None
+            try:
+                r0 = recips[0].children
+                alg_here = [(-1 - vv.arg if vv.major == 1 else vv.arg) for kk, vv in r0[1].children if kk.arg == 1]
+                ct0 = r0[2]
+            except Exception:  # noqa
+                alg_here, ct0 = None, None
+            if alg_here != [-6] or ct0 is None or not (ct0.major == 7 and ct0.arg == 22):
+                res.spec_failures.append({"reuse": "encryptor", "position": k, "context": party, "recipient_algorithm": alg_here,
+                                          "what": "a direct-key call on a reused encryptor does not publish the direct recipient (algorithm -6, nil wrapped key) of this call"})
             if recips is None or len(recips) != 1 or kids != [7]:
                 res.spec_failures.append({"reuse": "encryptor", "position": k, "context": party, "recipients": None if recips is None else len(recips), "key_ids": kids,
                                           "what": "the encryption info of a later call in the same process does not list exactly the one recipient of this call"})
@@ -252,3 +272,35 @@ def _verify_ecdsa(key, sig, envelope_bytes):
         return True
     except InvalidSignature:
         return False
+
+
+def converter_reuse(res, prop: str):
+    """one KeyConverter object asked for its output more than once (a preview, then the file; the file twice): every output is the first output"""
+    from cryptography.hazmat.primitives import serialization
+    from cryptography.hazmat.primitives.asymmetric import ec, ed25519, ed448
+    from suit_generator import cmd_convert
+    gens = [lambda: ec.derive_private_key(326, ec.SECP256R1()), lambda: ec.derive_private_key(77, ec.SECP384R1()), lambda: ec.derive_private_key(5, ec.SECP521R1()),
+            lambda: ed25519.Ed25519PrivateKey.from_private_bytes(bytes(range(32))), lambda: ed448.Ed448PrivateKey.from_private_bytes(bytes(range(57)))]
+    with tempfile.TemporaryDirectory(prefix="verif_reuse_") as d:
+        for k, g in enumerate(gens):
+            key = g()
+            inp, outp = os.path.join(d, f"k{k}.pem"), os.path.join(d, f"k{k}.c")
+            with open(inp, "wb") as fh:
+                fh.write(key.private_bytes(serialization.Encoding.PEM, serialization.PrivateFormat.PKCS8, serialization.NoEncryption()))
+            res.case(["converter-reuse", prop, k], nontrivial=True)
+            res.count("reuse:converter")
+            try:
+                conv = cmd_convert.KeyConverter(inp, outp, columns_count=[8, 12, 1, 64, 5][k])
+                first = conv.prepare_file_contents()
+                second = conv.prepare_file_contents()
+                conv.generate_c_file()
+                written = open(outp).read()
+                conv.generate_c_file()
+                written2 = open(outp).read()
+            except BaseException as e:  # noqa
+                res.spec_failures.append({"reuse": "converter", "position": k, "what": "a converter used more than once failed: " + type(e).__name__})
+                continue
+            if not (first == second == written == written2):
+                which = "second preview" if first != second else ("file" if first != written else "second file")
+                res.spec_failures.append({"reuse": "converter", "position": k, "first_output": first[:300], "differing_output": (second if first != second else written if first != written else written2)[:300],
+                                          "what": f"one converter object, several outputs: the {which} is not the first output (the C array of the same key)"})
